@@ -61,6 +61,8 @@ pub fn src_name(s: &Src) -> &'static str {
     Src::IntervalAt(..) => "interval_at",
     Src::Timer(..) => "timer",
     Src::TimerAt(..) => "timer_at",
+    Src::StreamCount(_) => "from_stream",
+    Src::IterCount(_) => "from_iter",
   }
 }
 
